@@ -14,7 +14,6 @@ import (
 	"context"
 	"encoding/json"
 	"fmt"
-	"math/big"
 	"net/http"
 	"os"
 	"reflect"
@@ -1214,5 +1213,3 @@ func replay(path string, thorough bool) {
 	fmt.Println("replay: function / tuple not found")
 	os.Exit(2)
 }
-
-var _ = big.NewInt
